@@ -13,7 +13,7 @@ THEOREMS = ["Genql.C13." + t for t in [
     "no_deadlock_single_lock", "cache_is_parse_graph", "execReader_no_deadlock"]] + \
     ["Genql.Obligations.C13." + t for t in [
         "execReader_well_locked", "cache_only_in_execReader", "execReader_race_free", "parallel_join_well_locked",
-        "parallel_hash_join_well_locked", "vars_well_locked", "registries_init_only"]]
+        "parallel_hash_join_well_locked", "vars_well_locked", "registries_init_only", "package_vars_users"]]
 TRUSTED = ["the Go memory model and scheduler are not formalised: a theorem cannot exhibit a race; races are only *searched* with "
            "the race detector", "the go/ast fact extractor (lock/unlock/access paths of ExecReader, PARALLEL join workers, GETVAR/SETVAR; "
            "writers of package-level variables)"]
